@@ -19,6 +19,7 @@ import (
 	"fmt"
 	"regexp"
 	"strings"
+	"sync"
 	"time"
 
 	"github.com/conduitio/conduit-commons/database"
@@ -44,6 +45,14 @@ type Service struct {
 
 	instances     map[string]*Instance
 	instanceNames map[string]bool
+
+	// statusMu serializes UpdateStatus, so that status changes reach the
+	// store in the order in which they were made in memory. The cleanup of a
+	// run that just ended and the start of the next run update the status
+	// from different goroutines: without the lock the older status could be
+	// written to the store last and stay there (e.g. "degraded" for a
+	// pipeline that is running), which is what a restarted server believes.
+	statusMu sync.Mutex
 }
 
 // NewService initializes and returns a pipeline Service.
@@ -373,6 +382,8 @@ func (s *Service) UpdateStatus(ctx context.Context, id string, status Status, er
 	if err != nil {
 		return err
 	}
+	s.statusMu.Lock()
+	defer s.statusMu.Unlock()
 	s.updateOldStatusMetrics(pipeline)
 	pipeline.SetStatus(status)
 
